@@ -573,6 +573,12 @@ func (c *bufioConn) CopyRelayRemainder(dst io.Writer, buf []byte, record func(in
 }
 
 func (c *bufioConn) Read(b []byte) (int, error) {
+	// Once the detection bytes are drained, read the socket directly: a
+	// bufio.Reader remembers a read error (the expired detection deadline) and
+	// would hand it out as the result of the relay's first read.
+	if c.reader == nil || c.reader.Buffered() == 0 {
+		return c.Conn.Read(b)
+	}
 	return c.reader.Read(b)
 }
 
